@@ -48,4 +48,14 @@ CLAIMED["C16"] = {"text": "Ideal-signature model (key, list of signed members) i
                   "design_ref": "3/C16", "note": _TB + " OpenPGP is ground truth (x/crypto).",
                   "technique": "TLC model checking of loader+debsig machine with nondeterministic selection; fault enumeration judged by TLC against an ideal-signature spec"}
 
+CLAIMED["C04"] = {"text": "An independent recursive-descent reference parser for Policy 7.1 relationship fields is written in TLA+ (accept with AST / reject for exactly the malformations the property lists / unspecified otherwise) together with a renderer; TLC checks RefParse(Render(model)) = model for the whole bounded model domain in four spacing styles and several clause orders, then judges the real Parse and UnmarshalControl on every such rendering and on seeded single-byte corruptions of them.",
+                  "design_ref": "3/C04", "note": _TB,
+                  "technique": "TLA+ reference parser/renderer, self-consistency model-checked by TLC; real parser outputs validated by TLC"}
+CLAIMED["C05"] = {"text": "For every input the real parser accepts (bounded-exhaustive renderings, mutations, raw bytes) TLC checks that String()/MarshalControl output is accepted again, parses to the identical structure, and is read as that same structure by the TLA+ reference parser; every architecture name built from 8 components in 1-, 2- and 3-part form is checked for the (abi, os, cpu) fixpoint and against the reference triple.",
+                  "design_ref": "3/C05", "note": _TB,
+                  "technique": "TLC validation of render/re-parse traces against the TLA+ reference parser; exhaustive architecture-name enumeration"}
+CLAIMED["C06"] = {"text": "Match / SetAdmits / Select / Satisfied are specified in TLA+ from the property; TLC enumerates exactly the property's domain ('all' plus {any,x,y,z}^3: all 4225 ordered pairs; lists x negation x targets; dependency shapes x targets; operators x versions) and judges Arch.Is (both operand orders, struct-built and parsed), ArchSet.Matches, GetPossibilities/GetAllPossibilities/GetSubstvars and SatisfiedBy.",
+                  "design_ref": "3/C06", "note": _TB + " Wildcard-vs-wildcard matches are only required to be symmetric.",
+                  "technique": "TLC exhaustive enumeration of the stated finite domain; results of the real predicates validated by TLC"}
+
 NOT_APPLICABLE = {}
